@@ -23,9 +23,9 @@ func runC07(c *Ctx) {
 		c.R.Add("C07.anchor", "ANCHOR-UNRESOLVED evaluator dispatcher", "-", Undecided, "not found")
 		return
 	}
-	c07Binding(c, d)
+	c07Binding(c, d, "C07.guarded-binding")
 	c07Order(c, d)
-	c07Fresh(c)
+	c07Fresh(c, "C07.fresh-results")
 	c07NoDataWrites(c)
 }
 
@@ -39,13 +39,13 @@ func (c *Ctx) isThisMap(v ssa.Value) bool {
 	return false
 }
 
-func c07Binding(c *Ctx, d *Dispatcher) {
-	const rule = "C07.guarded-binding"
+func c07Binding(c *Ctx, d *Dispatcher, rule string) {
 	rr := c.ReachFrom("eval+builtins", c.evalRoots()...)
 	binder := c.method("Runner", "SetThisValue")
 	if !c.need(rule, binder, "(*Runner).SetThisValue") {
 		return
 	}
+	c.entrySetterRule(rule, binder)
 	// (a) sole writer of the data map among evaluator-reachable functions
 	nw := 0
 	for _, f := range rr.Order {
@@ -365,8 +365,7 @@ func isResultOf(v ssa.Value, call *ssa.Call, idx int) bool {
 	return r.Kind == "call" && r.V == ssa.Value(call) && r.Idx == idx && len(r.Path) == 0 && !r.Conv
 }
 
-func c07Fresh(c *Ctx) {
-	const rule = "C07.fresh-results"
+func c07Fresh(c *Ctx, rule string) {
 	rr := c.ReachFrom("eval+builtins", c.evalRoots()...)
 	n := 0
 	sliceOr := &Origins{PassThrough: func(call *ssa.Call) int {
